@@ -62,7 +62,7 @@ def gen_case(rng, nrng):
         w = np.random.default_rng(rng.randrange(10 ** 6)).uniform(0.2, 2.0, len(x))
         if kind == 1:
             w = x ** 2 + 0.1
-        c["warr"] = [float(v) for v in w * rng.choice([1.0, 7.3, 0.01, 250.0])]
+        c["warr"] = [float(v) for v in w * rng.choice([1.0, 7.3, 0.01, 250.0, 1e-12, 1e-15, 1e-18, 1e15])]   # any positive array, whatever its scale
     return c
 
 
@@ -154,13 +154,26 @@ def oracle(c):
         wk = c["weights"]
         w = np.ones(n) if wk is None else (np.array(c["warr"])[order] if wk == "array" else xs ** {"linear": 1, "quadratic": 2, "cubic": 3}[wk])
         w = w / w.sum()
-        e0 = EW._wlsq_error(d, xs, p, w)
+
+        def xerr(delta):
+            """weighted quantile error in x-space of the NON-ZERO observations, alpha and beta from the weighted regression at this
+            delta -- written here independently of virocon"""
+            keep = xs != 0
+            xk, pk, wk_ = xs[keep], p[keep], w[keep]
+            with np.errstate(all="ignore"):
+                pstar = np.log10(-np.log(1 - pk ** (1 / delta)))
+                if not np.all(np.isfinite(pstar)):
+                    return float("nan")
+                b_, a_ = np.polyfit(pstar, np.log10(xk), 1, w=np.sqrt(wk_))
+                xhat = 10 ** a_ * (-np.log(1 - pk ** (1 / delta))) ** b_
+            return float(np.sum(wk_ * (xk - xhat) ** 2))
+        e0 = xerr(d)
         for f in (0.97, 1.03):
-            e1 = EW._wlsq_error(d * f, xs, p, w)
+            e1 = xerr(d * f)
             if e1 < e0 * (1 - 1e-3) - 1e-12:
                 # does the error function end in nan just below delta?  (1 - p**(1/delta) rounds to 1 for the smallest plotting
                 # position: the optimiser cannot step into that region and stalls next to it)
-                cliff = bool(np.any(~np.isfinite([EW._wlsq_error(d * g, xs, p, w) for g in (0.96, 0.93, 0.9, 0.85, 0.8)])))
+                cliff = bool(np.any(~np.isfinite([xerr(d * g) for g in (0.96, 0.93, 0.9, 0.85, 0.8)])))
                 return (dict(sig, clause="delta-local-min", nan_cliff=cliff),
                         "delta=%r is not a local minimiser: error %r at delta*%r < %r%s" % (d, float(e1), f, float(e0), " (the error function is nan just below delta)" if cliff else ""))
     return None
